@@ -40,6 +40,14 @@ type Opts struct {
 	Abort   int // percent of transactions that are aborted instead of committed
 	OpenTx  int // percent of reopen steps that leave a transaction with writes open
 
+	// FkStress: percent of admin requests that are aimed at the foreign key /
+	// derived column neighbourhood: x_lower! columns and indexes on foreign
+	// key columns, renames and drops of columns that a foreign key index and
+	// a derived column use at once, requests with a valid foreign key part
+	// followed by a part that fails late (final validation / index build),
+	// renames of tables on either side of a foreign key.
+	FkStress int
+
 	Fkeys    bool // foreign keys in create / alter create / ensure
 	Views    bool
 	Derived  bool   // rule columns and x_lower! columns / indexes
@@ -51,7 +59,7 @@ type Opts struct {
 // DefaultOpts is the mix used by the close/reopen check.
 func DefaultOpts() Opts {
 	return Opts{Admin: 30, Tran: 40, Persist: 22, Reopen: 4, Sleep: 0,
-		Invalid: 12, Abort: 10, OpenTx: 40, Fkeys: true, Views: true, Derived: true, Long: true, MaxGapMs: 50}
+		Invalid: 12, Abort: 10, OpenTx: 40, FkStress: 15, Fkeys: true, Views: true, Derived: true, Long: true, MaxGapMs: 50}
 }
 
 // name universe
@@ -328,7 +336,9 @@ func GenAdmin(t *rapid.T, w *World, o Opts) *Admin {
 	case kind < 22: // create
 		name := missingTable("ctable")
 		cols := genNewCols(t, o, nil)
-		return &Admin{Kind: "create", Table: name, Cols: cols, Idx: genIndexes(t, w, o, name, cols, nil, true, wild)}
+		a := &Admin{Kind: "create", Table: name, Cols: cols, Idx: genIndexes(t, w, o, name, cols, nil, true, wild)}
+		stressCreate(t, w, o, a, nil)
+		return a
 	case kind < 32: // ensure
 		name := pick(t, "etable", TableUniverse)
 		tb := w.Tables[name]
@@ -338,7 +348,9 @@ func GenAdmin(t *rapid.T, w *World, o Opts) *Admin {
 		}
 		cols := genEnsureCols(t, o, have)
 		all := union(have, cols)
-		return &Admin{Kind: "ensure", Table: name, Cols: cols, Idx: genIndexes(t, w, o, name, all, tb, tb == nil, wild)}
+		a := &Admin{Kind: "ensure", Table: name, Cols: cols, Idx: genIndexes(t, w, o, name, all, tb, tb == nil, wild)}
+		stressCreate(t, w, o, a, tb)
+		return a
 	case kind < 47: // alter create
 		name := existingTable("actable")
 		tb := w.Tables[name]
@@ -354,13 +366,41 @@ func GenAdmin(t *rapid.T, w *World, o Opts) *Admin {
 		if len(cols) == 0 || pct(t, "acidx", 60) {
 			idx = genIndexes(t, w, o, name, union(have, cols), tb, false, wild)
 		}
-		return &Admin{Kind: "altercreate", Table: name, Cols: cols, Idx: idx}
+		a := &Admin{Kind: "altercreate", Table: name, Cols: cols, Idx: idx}
+		stressCreate(t, w, o, a, tb)
+		return a
 	case kind < 60: // alter drop
 		name := existingTable("adtable")
+		if fkt := w.fkTables(); len(fkt) > 0 && !wild && pct(t, "adstress", o.FkStress) {
+			name = pick(t, "adfktable", fkt)
+		}
 		tb := w.Tables[name]
 		a := &Admin{Kind: "alterdrop", Table: name}
 		if tb == nil {
 			a.Cols = []string{pick(t, "adcol", ColUniverse)}
+			return a
+		}
+		if hot := w.hotCols(tb); len(hot) > 0 && !wild && pct(t, "adhot", 2*o.FkStress) {
+			// drop a column that foreign key indexes / derived columns use,
+			// together with the indexes that use it (so that the request gets
+			// past the early "column used by index" test); its x_lower!
+			// companion is dropped too only half of the time, otherwise the
+			// final validation refuses the request after the links were fixed up
+			c := pick(t, "adhotcol", hot)
+			a.Cols = []string{c}
+			for _, ix := range tb.Idx {
+				if slices.Contains(ix.Cols, c) {
+					a.Idx = append(a.Idx, Index{Mode: ix.Mode, Cols: slices.Clone(ix.Cols)})
+				}
+			}
+			if slices.Contains(tb.Derived, c+"_lower!") && pct(t, "adhotlower", 50) {
+				a.Cols = append(a.Cols, c+"_lower!")
+				for _, ix := range tb.Idx {
+					if slices.Contains(ix.Cols, c+"_lower!") && a.findIdx(ix.Cols) < 0 {
+						a.Idx = append(a.Idx, Index{Mode: ix.Mode, Cols: slices.Clone(ix.Cols)})
+					}
+				}
+			}
 			return a
 		}
 		what := gen.Uniform(t, "adwhat", 10)
@@ -393,8 +433,15 @@ func GenAdmin(t *rapid.T, w *World, o Opts) *Admin {
 		return a
 	case kind < 72: // alter rename
 		name := existingTable("artable")
+		if fkt := w.fkTables(); len(fkt) > 0 && !wild && pct(t, "arstress", o.FkStress) {
+			name = pick(t, "arfktable", fkt)
+		}
 		tb := w.Tables[name]
 		a := &Admin{Kind: "alterrename", Table: name}
+		var hot []string
+		if tb != nil && !wild && pct(t, "arhot", 2*o.FkStress) {
+			hot = w.hotCols(tb)
+		}
 		n := 1
 		if pct(t, "ar2", 25) {
 			n = 2
@@ -409,6 +456,12 @@ func GenAdmin(t *rapid.T, w *World, o Opts) *Admin {
 				from, to = pick(t, "arfrom", ColUniverse), pick(t, "arto", ColUniverse)
 			} else {
 				j := gen.Uniform(t, "arfromi", len(cols))
+				if i == 0 && len(hot) > 0 {
+					// a column used by a foreign key index and/or a derived column
+					if k := slices.Index(cols, pick(t, "arhotcol", hot)); k >= 0 {
+						j = k
+					}
+				}
 				from = cols[j]
 				var free []string
 				for _, c := range ColUniverse {
@@ -429,6 +482,9 @@ func GenAdmin(t *rapid.T, w *World, o Opts) *Admin {
 		return a
 	case kind < 80: // rename table
 		from := existingTable("rtable")
+		if fkt := w.fkTables(); len(fkt) > 0 && !wild && pct(t, "rstress", 2*o.FkStress) {
+			from = pick(t, "rfktable", fkt) // refused late when it is a target
+		}
 		return &Admin{Kind: "rename", Table: from, To: []string{missingTable("rto")}}
 	case kind < 88: // view
 		if !o.Views {
@@ -626,4 +682,153 @@ func genFk(t *rapid.T, w *World, table string, cs []string, own []Index, tb *Tab
 	}
 	c := pick(t, "fktarget", cands)
 	return &Fk{Table: c.table, Cols: slices.Clone(c.cols), Mode: pick(t, "fkmode", []int{FkBlock, FkBlock, FkCascade, FkCascadeUpdate})}
+}
+
+// ---------------------------------------------------------------- foreign key neighbourhood
+
+func (a *Admin) findIdx(cols []string) int {
+	for i := range a.Idx {
+		if slices.Equal(a.Idx[i].Cols, cols) {
+			return i
+		}
+	}
+	return -1
+}
+
+// FkSide reports whether the table is the source or the target of a
+// foreign key.
+func (w *World) FkSide(name string) bool { return w.fkSide(name) }
+
+// fkTables: the tables on either side of a foreign key, sorted.
+func (w *World) fkTables() []string {
+	var r []string
+	for _, n := range w.TableNames() {
+		if w.fkSide(n) {
+			r = append(r, n)
+		}
+	}
+	return r
+}
+
+// hotCols: live columns of tb that a foreign key uses (columns of an index
+// with a foreign key, columns of a key that other tables reference) or that
+// are the base of an x_lower! derived / index column; columns that are both
+// come twice (so they are picked more often).
+func (w *World) hotCols(tb *Table) []string {
+	var hot []string
+	live := tb.LiveCols()
+	add := func(c string) {
+		c = strings.TrimSuffix(c, "_lower!")
+		if slices.Contains(live, c) {
+			hot = append(hot, c)
+		}
+	}
+	for _, ix := range tb.Idx {
+		if ix.Fk != nil || len(w.incoming(tb.Name, ix.Cols)) > 0 {
+			for _, c := range ix.Cols {
+				add(c)
+			}
+		}
+	}
+	nfk := len(hot)
+	lower := func(c string) {
+		if base, ok := strings.CutSuffix(c, "_lower!"); ok && slices.Contains(live, base) {
+			hot = append(hot, base)
+			if slices.Contains(hot[:nfk], base) {
+				hot = append(hot, base, base) // both at once: the interesting ones
+			}
+		}
+	}
+	for _, c := range tb.Derived {
+		lower(c)
+	}
+	for _, ix := range tb.Idx {
+		for _, c := range ix.Cols {
+			if !slices.Contains(tb.Derived, c) {
+				lower(c)
+			}
+		}
+	}
+	return hot
+}
+
+// stressCreate decorates a create / ensure / alter create request (o.FkStress
+// percent of them) when foreign keys are around:
+//
+//   - an x_lower! derived column (and sometimes an index on it) for a column
+//     x of a foreign key index of the request or of the existing table
+//   - a part that fails late, after the foreign key part of the request has
+//     been processed: an x_lower! of a column that does not exist (refused by
+//     the final validation), or a further index with a foreign key to a key
+//     that does not exist
+func stressCreate(t *rapid.T, w *World, o Opts, a *Admin, tb *Table) {
+	if !o.Derived || o.FkStress <= 0 {
+		return
+	}
+	phys, _ := splitCols(a.Cols)
+	var have []string
+	if tb != nil {
+		have = tb.LiveCols()
+	}
+	all := union(have, phys)
+	// columns of foreign key indexes (request first, then the existing table)
+	var fkcols []string
+	for _, ix := range a.Idx {
+		if ix.Fk != nil {
+			fkcols = union(fkcols, ix.Cols)
+		}
+	}
+	hasFkPart := len(fkcols) > 0
+	if tb != nil {
+		for _, c := range w.hotCols(tb) {
+			fkcols = union(fkcols, []string{c})
+		}
+	}
+	var cands []string
+	for _, c := range fkcols {
+		if !strings.HasSuffix(c, "_lower!") && slices.Contains(all, c) {
+			cands = append(cands, c)
+		}
+	}
+	if len(cands) > 0 && pct(t, "stresslower", 2*o.FkStress) {
+		c := pick(t, "stresslowercol", cands) + "_lower!"
+		exists := slices.Contains(a.Cols, c) || (tb != nil && slices.Contains(tb.Derived, c))
+		if !exists {
+			a.Cols = append(a.Cols, c)
+		}
+		if pct(t, "stresslowerix", 50) && a.findIdx([]string{c}) < 0 && (tb == nil || tb.findIndex([]string{c}) < 0) {
+			a.Idx = append(a.Idx, Index{Mode: 'i', Cols: []string{c}})
+		}
+	}
+	if (hasFkPart || (tb != nil && w.fkSide(tb.Name))) && pct(t, "stresslate", o.FkStress) {
+		switch gen.Uniform(t, "stresslatekind", 3) {
+		case 0: // x_lower! of a column that does not exist
+			for _, c := range ColUniverse {
+				if !slices.Contains(all, c) {
+					a.Cols = append(a.Cols, c+"_lower!")
+					break
+				}
+			}
+		case 1: // a further foreign key to a key that does not exist
+			if len(all) > 0 {
+				c := pick(t, "stresslatecol", all)
+				if a.findIdx([]string{c}) < 0 && (tb == nil || tb.findIndex([]string{c}) < 0) {
+					target := pick(t, "stresslatetable", TableUniverse)
+					a.Idx = append(a.Idx, Index{Mode: 'i', Cols: []string{c},
+						Fk: &Fk{Table: target, Cols: []string{"nokey"}, Mode: FkBlock}})
+				}
+			}
+		default: // an index on x_lower! of a column that does not exist
+			for _, x := range ColUniverse {
+				if slices.Contains(all, x) {
+					continue
+				}
+				c := x + "_lower!"
+				if a.findIdx([]string{c}) < 0 {
+					a.Idx = append(a.Idx, Index{Mode: 'i', Cols: []string{c}})
+				}
+				break
+			}
+		}
+	}
 }
